@@ -26,8 +26,10 @@ RULE = ('exhaustive: every assignment of the edge-hitting alphabet {below, negat
         'with 1..3 (quick) / 1..4 (thorough) bins from the real define_hist_bins x {energy, amplitude} x {dense, sparse, 1-D}; '
         'random: T <= 60, M <= 6, 1..12 bins, linear/log/from-data edges, frequencies drawn from the alphabet, the floats adjacent to the '
         'outer edges and uniform values, integer or dyadic amplitudes of either sign, vector inputs; malformed: mismatched shapes, '
-        'non-monotone / empty / single edge vectors. Non-trivial: the input has at least one in-range and one out-of-range-or-edge sample; '
-        'distinct by content hash.')
+        'non-monotone / empty / single edge vectors. Every input is evaluated as ONE SEQUENCE OF CALLS ON THE SAME ARRAY OBJECTS: '
+        'dense, sparse and 1-D in one of the 6 possible orders (drawn per case), then dense and sparse again; each result is compared '
+        'with the model and with the brute-force histogram of a pristine copy, and the arrays handed in are compared with the pristine copy '
+        'after every call. Non-trivial: the input has at least one in-range and one out-of-range-or-edge sample; distinct by content hash.')
 
 
 def _edge_sets(tier):
@@ -72,8 +74,13 @@ class Exhaustive(Stream):
             F = [[g[combo[t * M + j]][1] for j in range(M)] for t in range(T)]
             yield combo, e, F, A
 
+    @staticmethod
+    def _seq(combo):
+        """call order of this input: a function of its content only (stable under shrinking / replay)"""
+        return sum((i + 1) * c for i, c in enumerate(combo)) + len(combo)
+
     def impl(self, case):
-        return [_spec.run_hht(F, A, e, case['mode']) for _, e, F, A in self._inputs(case)]
+        return [_spec.run_hht(F, A, e, case['mode'], seq=self._seq(combo)) for combo, e, F, A in self._inputs(case)]
 
     def ops(self, case, out):
         ops = []
@@ -87,7 +94,7 @@ class Exhaustive(Stream):
         for i, ((combo, e, F, A), o) in enumerate(zip(self._inputs(case), out)):
             d = _spec.hht_compare(o, results[2 * i:2 * i + 2])
             if d:
-                return 'freqs=%s amps=%s edges=%s mode=%s: %s' % (F, A, list(e), case['mode'], d)
+                return 'freqs=%s amps=%s edges=%s mode=%s: %s' % (F, A, [float(v) for v in e], case['mode'], d)
         return None
 
     def holds(self, case, out):
@@ -97,7 +104,7 @@ class Exhaustive(Stream):
         for (combo, e, F, A), o in zip(self._inputs(case), out):
             for f in _spec.hht_holds(F, A, e, case['mode'], o):
                 if f.kind not in fs:
-                    f.detail = 'freqs=%s amps=%s edges=%s mode=%s: %s' % (F, A, list(e), case['mode'], f.detail)
+                    f.detail = 'freqs=%s amps=%s edges=%s mode=%s: %s' % (F, A, [float(v) for v in e], case['mode'], f.detail)
                     f.combo = list(combo)
                     fs[f.kind] = f
         return list(fs.values())
@@ -142,6 +149,13 @@ class Single(Stream):
             # edges from the data: the maximum sits on the last edge and contributes nothing
             {'F': [[1.0, 2.0], [3.0, 4.0], [2.5, 1.0]], 'A': [[1.0, 2.0], [4.0, 8.0], [16.0, 32.0]],
              'edges': {'from_data': 1, 'n': 3, 'scale': 'linear'}, 'mode': 'amplitude'},
+            # round-2 seed C10-3 (energy mode squared the caller's amplitude array in place: the first call is right, every
+            # later spectrum of "the same" data is wrong): all six call orders on one in-range sample of amplitude 3,
+            # a vector input (ensure_2d hands back a view of the caller's array) and a 3-IMF input
+        ] + [{'F': [[1.5]], 'A': [[3.0]], 'edges': lin, 'mode': 'energy', 'seq': q} for q in range(6)] + [
+            {'F': [1.5, 2.5, 0.5], 'A': [3.0, -2.0, 5.0], 'edges': lin, 'mode': 'energy', 'seq': 1},
+            {'F': [[1.5, 4.5, 9.0], [2.0, 2.5, 1.0]], 'A': [[2.0, 3.0, 5.0], [0.5, -4.0, 7.0]], 'edges': lin, 'mode': 'energy', 'seq': 4},
+            {'F': [[1.5, 4.5, 9.0], [2.0, 2.5, 1.0]], 'A': [[2.0, 3.0, 5.0], [0.5, -4.0, 7.0]], 'edges': lin, 'mode': 'amplitude', 'seq': 3},
         ]
 
     def generate(self, rng, tier):
@@ -190,7 +204,7 @@ class Single(Stream):
             if vector:
                 F = [r[0] for r in F]
                 A = [r[0] for r in A]
-            yield {'F': F, 'A': A, 'edges': es, 'mode': rng.choice(_spec.MODES)}
+            yield {'F': F, 'A': A, 'edges': es, 'mode': rng.choice(_spec.MODES), 'seq': rng.randrange(6)}
 
     def _edges(self, case):
         return _spec.make_edges(case['edges'], case['F'])
@@ -199,7 +213,7 @@ class Single(Stream):
         return np.ndim(case['F']) == 2
 
     def impl(self, case):
-        return _spec.run_hht(case['F'], case['A'], self._edges(case), case['mode'], do_1d=self._do1d(case))
+        return _spec.run_hht(case['F'], case['A'], self._edges(case), case['mode'], do_1d=self._do1d(case), seq=case.get('seq', 0))
 
     def ops(self, case, out):
         return _spec.hht_ops(case['F'], case['A'], self._edges(case), case['mode'], do_1d=self._do1d(case))
@@ -216,6 +230,8 @@ class Single(Stream):
 
     def tags(self, case, out):
         t = _spec.hht_tags(case['F'], self._edges(case), case['mode'])
+        if not isinstance(out, ImplError):
+            t.append('calls=' + '>'.join(out.get('order', [])[:3]))
         t.append('edges=' + (case['edges'].get('src', 'explicit') if 'explicit' in case['edges'] else case['edges'].get('scale', '?')
                              + ('-from-data' if case['edges'].get('from_data') else '')))
         return t
@@ -276,7 +292,7 @@ class Malformed(Stream):
                 e = e[:1]
             F = [[float(rng.randint(-1, 10)) for _ in range(M)] for _ in range(T)]
             A = [[float(rng.randint(0, 5)) for _ in range(M2)] for _ in range(max(T2, 1))]
-            yield {'F': F, 'A': A, 'e': e, 'mode': rng.choice(_spec.MODES), 'why': why}
+            yield {'F': F, 'A': A, 'e': e, 'mode': rng.choice(_spec.MODES), 'why': why, 'seq': rng.randrange(6)}
 
     def _same_shape(self, case):
         return np.shape(_spec.arr(case['F'])) == np.shape(_spec.arr(case['A']))
@@ -289,7 +305,7 @@ class Malformed(Stream):
 
     def impl(self, case):
         F, A = self._arrays(case)
-        return _spec.run_hht(F, A, case['e'], case['mode'], do_1d=self._same_shape(case))
+        return _spec.run_hht(F, A, case['e'], case['mode'], do_1d=self._same_shape(case), seq=case.get('seq', 0))
 
     def ops(self, case, out):
         F, A = self._arrays(case)
@@ -303,8 +319,8 @@ class Malformed(Stream):
     def holds(self, case, out):
         if isinstance(out, ImplError):
             return [Failure('raises:' + out['error'], out['msg'])]
-        fs = []
         why = case['why']
+        fs = [] if why == 'ok' else _spec.modified_failures(out)     # (hht_holds reports them for 'ok')
         if why in ('rows-differ', 'cols-differ', 'vector-vs-matrix'):
             for nm in ('dense', 'sparse'):
                 if out[nm].get('error') != 'ValueError':
